@@ -32,7 +32,7 @@ NA = [
 ]
 
 NOTE = {
-    "rtsim": "sampling, not enumeration; pre-emption inside stdlib/trio/asyncio only at their lock/queue operations; CPU-cost model for busy loop iterations (timing oracles use 50 ms tolerance); single SIGINT; weak fairness of the simulated scheduler is assumed for the liveness clauses",
+    "rtsim": "sampling, not enumeration; pre-emption inside stdlib/trio/asyncio only at their lock/queue operations (and inside WeakSet.__iter__); CPU-cost model for busy loop iterations (timing oracles use 50 ms tolerance); single SIGINT (a SIGINT next to a failing or interrupting payload is generated, a second ^C is not); weak fairness of the simulated scheduler is assumed for the liveness clauses",
     "plsim": "sampling, not enumeration; zero-cost steps under trio's MockClock; services started directly in a nursery (starting through the runtime is C03/C13)",
 }
 
